@@ -237,6 +237,9 @@ theorem inv_step (s : St) (o : Op) (h : Inv s) : Inv (step s o) := by
       refine ⟨hnd, hlt, hsh, hrit, { visible := true, cur := none, erased := false }, ?_, by simp [hr, hc.1], by simp [hb]⟩
       simp [aRun_append, harun, aRun, aStep, hcn]
     · rw [if_neg hc]; exact ⟨hnd, hlt, hsh, hrit, a, harun, hvis, hcur⟩
+  | exitReq =>
+    simp only [step]
+    split <;> exact ⟨hnd, hlt, hsh, hrit, a, harun, hvis, hcur⟩
 
 /-! ### main theorems -/
 
@@ -400,5 +403,11 @@ example :
 
 example : (runOps {} [.start, .enter false, .enter false, .enter true]).chain.map (·.st) = [.body, .waiting, .waiting] ∧
     (runOps {} [.start, .enter false, .enter false, .enter true]).rit = true := by decide
+
+-- the exit-requested phase: a section that enters after `Application.exit()` but before `run_async`
+-- resumed still goes through the chain (erase, body, redraw); the final rendering follows
+example :
+    (runOps {} [.start, .exitReq, .enter true, .stop]).log =
+      [.draw, .erase, .bodyBegin 0 true, .bodyEnd 0 true, .draw, .doneDraw] := by decide
 
 end Ptk.C20Chain
